@@ -21,16 +21,28 @@ NoDefs == [x \in {} |-> x]
 
 Slice(set, i) == LET seq == SetToSeq(set) IN {seq[j] : j \in {m \in 1..Len(seq) : m % Slots = i}}
 
+(* For a whole query the answers of the body are reified one after the other, and the labelled
+   answers of ONE body answer form a block whose inner order is the labelling's own (labelling is an
+   ordinary interleaving search, outside every dfs block).  For other goals every answer is its
+   own block. *)
+BlocksOf(g) ==
+  IF g[1] = "query"
+  THEN LET qs == [i \in 1..Len(g[2]) |-> V(g[2][i])]
+           r == EvalSeq(<< <<"eq", V(0), ListOf(qs)>> >> \o ElabGs(g[3]), InitK(0), 50, NoDefs)
+           bl == [i \in 1..Len(r.out) |-> LET e == EnforceFd(V(0), r.out[i]) IN [j \in 1..Len(e) |-> Vis(e[j])]]
+       IN SelectSeq(bl, LAMBDA b : Len(b) > 0)
+  ELSE LET r == Eval(g, InitK(0), 50, NoDefs) IN [i \in 1..Len(r.out) |-> <<Vis(r.out[i])>>]
+
 Init == /\ slot \in 0..(Slots - 1)
         /\ ast = <<"none">> /\ stream = Empty /\ out = <<>> /\ ticks = 0 /\ phase = "pick"
-        /\ ref = [out |-> <<>>, cut |-> FALSE]
+        /\ ref = [out |-> <<>>, cut |-> FALSE, blocks |-> <<>>]
 
 Pick == /\ phase = "pick"
         /\ \E g \in Slice(Scope, slot) :
               LET r == Solve(Build("b", g), InitK(0), Fuel, NoDefs) IN
               /\ ast' = g /\ stream' = r.s /\ ticks' = r.t
               /\ phase' = IF r.cut THEN "cut" ELSE "run"
-              /\ ref' = Eval(g, InitK(0), 50, NoDefs)
+              /\ ref' = Eval(g, InitK(0), 50, NoDefs) @@ [blocks |-> BlocksOf(g)]
         /\ out' = <<>> /\ slot' = slot
 
 (* one iteration of the loop of Solver::next *)
@@ -81,6 +93,9 @@ AstOf(g) ==
          <<g[1], CommitClauses(g)>>
     [] g[1] = "project" -> <<"project", g[3], g[4]>>
     [] g[1] = "everyg" -> <<"for", g[3], g[4], g[5]>>
+    [] g[1] = "reified" -> <<"rawconj", AstOf(g[2]), <<"reifyast", g[3]>> >>
+    [] g[1] = "reifyD" -> <<"reifyast", g[2]>>
+    [] g[1] \in {"forceans", "fdtail"} -> g
 
 RECURSIVE OwedL(_)
 RECURSIVE OwedS(_)
@@ -106,7 +121,16 @@ StepPreservesBag ==
 (* C06: nothing is invented at any time; C05: in DFS the emitted sequence is a prefix of the
    reference sequence at any time *)
 NoInvention == phase \in {"run", "exhausted"} /\ ~Ref.cut => SubBagSeq(OutV, RefV)
-DfsPrefix == (Dfs /\ phase \in {"run", "exhausted"} /\ ~Ref.cut) => IsPrefix2(OutV, RefV)
+BlockPrefix(outv, blocks) ==
+  LET RECURSIVE Go(_, _)
+      Go(i, pos) ==
+        IF pos > Len(outv) THEN TRUE
+        ELSE IF i > Len(blocks) THEN FALSE
+        ELSE LET n == Len(blocks[i])
+                 hi == IF pos + n - 1 < Len(outv) THEN pos + n - 1 ELSE Len(outv)
+             IN SubBagSeq(SubSeq(outv, pos, hi), blocks[i]) /\ Go(i + 1, pos + n)
+  IN Go(1, 1)
+DfsPrefix == (Dfs /\ phase \in {"run", "exhausted"} /\ ~Ref.cut) => BlockPrefix(OutV, Ref.blocks)
 (* C06: at exhaustion nothing has been lost *)
 Complete == (phase = "exhausted" /\ ~Ref.cut) => SameBagSeq(OutV, RefV)
 (* finite goal trees terminate within the fuel *)
